@@ -73,3 +73,57 @@ void h_pw_fp_seq(void) {
   CQV_CANARY("pw fp seq end");
 }
 #endif
+
+#ifdef CQV_PW_NULLS
+/* C16 "null_count equals the number of nulls" for the page-header statistics: the counter the page writer
+ * keeps (written as Statistics.null_count by carquet_page_writer_finalize, returned by
+ * carquet_page_writer_null_count / _get_statistics).  Real reset + add_values; bounded: <= 2 add_values calls
+ * of <= 4 rows each after a reset, any earlier page content.  Encoders/buffers have no body here (results
+ * arbitrary): only the counting is under test. */
+/* assumed contracts of the callees (results arbitrary, no effect on the page writer's counters) */
+carquet_status_t carquet_encode_plain_boolean(const uint8_t *v, int64_t n, carquet_buffer_t *o) { return nondet_int() ? CARQUET_OK : CARQUET_ERROR_OUT_OF_MEMORY; }
+carquet_status_t carquet_encode_plain_int32(const int32_t *v, int64_t n, carquet_buffer_t *o) { return nondet_int() ? CARQUET_OK : CARQUET_ERROR_OUT_OF_MEMORY; }
+carquet_status_t carquet_encode_plain_byte_array(const carquet_byte_array_t *v, int64_t n, carquet_buffer_t *o) { return nondet_int() ? CARQUET_OK : CARQUET_ERROR_OUT_OF_MEMORY; }
+void carquet_buffer_clear(carquet_buffer_t *b) { b->size = 0; }
+void carquet_buffer_init(carquet_buffer_t *b) { b->data = NULL; b->size = 0; b->capacity = 0; }
+void carquet_buffer_destroy(carquet_buffer_t *b) { }
+carquet_status_t carquet_buffer_append(carquet_buffer_t *b, const void *d, size_t n) { return nondet_int() ? CARQUET_OK : CARQUET_ERROR_OUT_OF_MEMORY; }
+carquet_status_t carquet_rle_encode_all(const uint32_t *v, int64_t n, int bw, carquet_buffer_t *o) { return nondet_int() ? CARQUET_OK : CARQUET_ERROR_OUT_OF_MEMORY; }
+static int64_t pw_nulls_of(const int16_t *def, int64_t n, int16_t md, int has_def) {
+  int64_t c = 0;
+  if (!has_def || md <= 0) return 0;
+  for (int64_t i = 0; i < 4; i++) if (i < n && def[i] != md) c++;
+  return c;
+}
+void h_pw_null_count(void) {
+  carquet_page_writer_t *w = malloc(sizeof(*w));
+  __CPROVER_assume(w != NULL);
+  /* arbitrary earlier page: any counters, any statistics */
+  __CPROVER_assume(w->max_def_level >= 0 && w->max_def_level <= 3 && w->max_rep_level == 0);
+  __CPROVER_assume(w->type == CARQUET_PHYSICAL_BYTE_ARRAY || w->type == CARQUET_PHYSICAL_INT32 || w->type == CARQUET_PHYSICAL_BOOLEAN);
+  carquet_page_writer_reset(w);
+  __CPROVER_assert(w->num_nulls == 0 && w->num_values == 0 && !w->has_min_max, "C16: reset starts a page with zero rows, zero nulls and no bounds");
+  __CPROVER_assert(carquet_page_writer_null_count(w) == 0, "C16: null_count of a fresh page is 0");
+  int16_t d1[4], d2[4];
+  int32_t vals[4];
+  int64_t n1 = nondet_i64(), n2 = nondet_i64();
+  int has1 = nondet_bool(), has2 = nondet_bool(), two = nondet_bool();
+  __CPROVER_assume(n1 >= 0 && n1 <= 4 && n2 >= 0 && n2 <= 4);
+  for (int i = 0; i < 4; i++) { __CPROVER_assume(d1[i] >= 0 && d1[i] <= w->max_def_level); __CPROVER_assume(d2[i] >= 0 && d2[i] <= w->max_def_level); }
+  int16_t md = w->max_def_level;
+  (void)carquet_page_writer_add_values(w, vals, n1, has1 ? d1 : NULL, NULL);
+  int64_t expect = pw_nulls_of(d1, n1, md, has1);
+  int64_t rows = n1;
+  if (two) {
+    (void)carquet_page_writer_add_values(w, vals, n2, has2 ? d2 : NULL, NULL);
+    expect += pw_nulls_of(d2, n2, md, has2);
+    rows += n2;
+    CQV_CANARY("pw nulls: two batches");
+  }
+  __CPROVER_assert(w->num_nulls == expect, "C16: the page's null count is the number of rows whose definition level is below the maximum");
+  __CPROVER_assert(carquet_page_writer_null_count(w) == expect, "C16: carquet_page_writer_null_count reports that number");
+  __CPROVER_assert(w->num_values == rows, "C16: the page's row count is the number of rows added since the reset");
+  if (expect > 0) CQV_CANARY("pw nulls: some nulls");
+  CQV_CANARY("pw nulls end");
+}
+#endif
